@@ -1,5 +1,11 @@
 """Schema library for C13: classes that log __post_init__ / execute with the identity of self and
-the parameters of self that are set at that moment."""
+the parameters of self that are set at that moment.
+
+Besides the plain classes there are "disguised" ones whose objects (configuration and runtime object
+alike) answer Python's generic protocols in an unusual way: empty containers (``__len__`` is 0: falsy),
+``__bool__`` False, equality and hash by content (two distinct objects with the same ``v`` are ``==``).
+What instance() / the parameter file build must not depend on any of that: objects are told apart by
+identity only."""
 from typing import Dict, List, Optional
 
 from experimaestro import Config, LightweightTask, Param, Task
@@ -50,4 +56,62 @@ class T(_Logged, Task):
         LOG.append(("body", id(self), _snap(self)))
 
 
-CLASSES = {c.__name__: c for c in (N, M, P, T)}
+# ---- disguises ---------------------------------------------------------------------------------
+class _Empty:
+    """container-like: holds nothing yet (a vocabulary before it is loaded, a registry, ...)"""
+
+    def __len__(self):
+        return 0
+
+
+class _Falsy:
+    def __bool__(self):
+        return False
+
+
+class _ByContent:
+    """equality / hash by the value of v (two distinct objects may be equal)"""
+
+    def __eq__(self, other):
+        return type(other) is type(self) and self.__dict__.get("v", 0) == other.__dict__.get("v", 0)
+
+    def __ne__(self, other):
+        return not self.__eq__(other)
+
+    def __hash__(self):
+        return hash(self.__dict__.get("v", 0))
+
+
+class NZ(_Empty, N):
+    pass
+
+
+class NQ(_ByContent, N):
+    pass
+
+
+class MB(_Falsy, M):
+    pass
+
+
+class PZ(_Empty, P):
+    pass
+
+
+class PB(_Falsy, P):
+    pass
+
+
+class PQ(_ByContent, P):
+    pass
+
+
+class TZ(_Empty, T):
+    pass
+
+
+CLASSES = {c.__name__: c for c in (N, M, P, T, NZ, NQ, MB, PZ, PB, PQ, TZ)}
+# the plain class a disguised one derives from (same parameters)
+BASE = dict(N="N", M="M", P="P", T="T", NZ="N", NQ="N", MB="M", PZ="P", PB="P", PQ="P", TZ="T")
+DISGUISE = dict(N="plain", M="plain", P="plain", T="plain", NZ="empty", NQ="by-content", MB="false",
+                PZ="empty", PB="false", PQ="by-content", TZ="empty")
